@@ -169,8 +169,23 @@ def set_sleep_model(f):
     _SLEEP_MODEL[0] = f
 
 
+def _run_inline(r):
+    """an `async def` hook (another task acting at this suspension point) is driven to completion inline; all awaits in
+    a replay are ghost sleeps / stand-ins that never really suspend"""
+    if hasattr(r, "send"):
+        try:
+            r.send(None)
+        except StopIteration:
+            return
+        r.close()
+        raise RuntimeError("interference coroutine suspended for real during native replay")
+
+
 def set_suspend_hook(f):
-    _SUSPEND_HOOK[0] = f
+    if f is None:
+        _SUSPEND_HOOK[0] = None
+    else:
+        _SUSPEND_HOOK[0] = lambda what: _run_inline(f(what))
 
 
 async def _ghost_sleep(delay, result=None):
